@@ -228,6 +228,24 @@ impl<'this> GlobalDeque<'this> {
         consumed
     }
 
+    /// Verification hook: fills the slice / anchor / counter part of a projection.
+    #[cfg(woodpile_verif)]
+    pub fn verif_project(&self, dst: &mut crate::verif::Projection) {
+        dst.slices = self
+            .slices
+            .iter()
+            .map(|slice| (slice.as_ptr() as usize, slice.len()))
+            .collect();
+        dst.anchors = self
+            .anchors
+            .iter()
+            .map(|anchor| (anchor.count(), anchor.verif_chunk_base()))
+            .collect();
+        dst.logical_size = self.logical_size;
+        dst.consumed_size = self.consumed_size;
+        dst.consumed_slices = self.consumed_slices;
+    }
+
     /// Returns the total number of slices.
     #[must_use]
     #[inline(always)]
